@@ -134,6 +134,9 @@ def st_circuit(hiN):
          'early': st.sampled_from([None, None, 0, 1, 2])}))
 
 
+_RES_FORMS = (int, int, np.int64, bool, np.bool_, float, np.uint8)
+
+
 def f_postselect(case):
     N = case['N']
     S, _ = C.dec_state('np', case['state'])
@@ -141,7 +144,14 @@ def f_postselect(case):
     l, k = ref.parse(case['pauli'])
     res = case['res']
     P = B.np_pauli(l, k)
-    snapP = B.snapshot(P)
+    if case.get('own') is not None and case['state']['r'] == 0:
+        # the observable is one of the state's own rows, taken by indexing (a view into the state's arrays), e.g. a destabilizer
+        j = case['own'] % (2 * N)
+        l0, k0, _ = B.read_state(S)
+        l, k = l0[j].copy(), int(k0[j])
+        P = S[j]
+        case = dict(case, pauli=ref.show(l, k))
+    snapP = B.snapshot(P) if case.get('own') is None else None
     before = B.snapshot(S)
     if case['state']['r'] != 0:
         try:
@@ -150,8 +160,8 @@ def f_postselect(case):
             check(B.snapshot(S) == before, 'postselect on mixed state raised but modified the state', 'postselect-mixed-modified')
             return {'nt': True, 'labels': ['mixed-rejected']}
         raise Mismatch('postselect on a mixed state did not raise ValueError', 'postselect-mixed')
-    prob = S.postselect(P, res)
-    check(B.snapshot(P) == snapP, 'postselect modified its Pauli argument', 'purity')
+    prob = S.postselect(P, _RES_FORMS[(res + 2 * N + len(case['pauli'])) % len(_RES_FORMS)](res))     # requested result 0 / 1 in several numeric forms
+    check(snapP is None or B.snapshot(P) == snapP, 'postselect modified its Pauli argument', 'purity')
     Pi = (np.eye(2 ** N) + (-1) ** res * ref.dense(l, k)) / 2
     q = float(np.real(np.trace(Pi @ rho)))
     check(abs(float(prob) - q) < 1e-9, 'postselect(%s, %d) returned %r, Born probability is %r (stabilizers %s)' % (
@@ -168,7 +178,7 @@ def st_postselect(hiN):
         state = st.fixed_dictionaries({'rows': gen.st_clifford_rows(N), 'r': st.sampled_from([0, 0, 0, 0, 0, 0, 0, 1])})
         # signed Pauli: random, or an element of the state's group (deterministic branch)
         def build(t):
-            stt, p, sel, sg, useg, res = t
+            stt, p, sel, sg, useg, res, own = t
             if useg:
                 Ls, Ks, r = C.state_rows(stt)
                 l = np.zeros(N, dtype=np.int64); k = 0
@@ -176,8 +186,8 @@ def st_postselect(hiN):
                     if b:
                         l, k = ref.pmul(l, k, Ls[a], Ks[a])
                 p = ref.show(l, (int(k) + 2 * sg) % 4)
-            return {'N': N, 'state': stt, 'pauli': p, 'res': res}
-        return st.tuples(state, gen.st_herm(N), st.lists(st.booleans(), min_size=N, max_size=N), st.integers(0, 1), st.booleans(), st.integers(0, 1)).map(build)
+            return {'N': N, 'state': stt, 'pauli': p, 'res': res, 'own': own}
+        return st.tuples(state, gen.st_herm(N), st.lists(st.booleans(), min_size=N, max_size=N), st.integers(0, 1), st.booleans(), st.integers(0, 1), st.sampled_from([None, None, None, 0, 1, 2, 3, 4, 5, 6, 7])).map(build)
     return st.integers(1, hiN).flatmap(inner)
 
 
@@ -242,6 +252,8 @@ def f_backward(case):
         else:
             A = _gate_unitary(gd, N, g)
             cur = A.conj().T @ cur @ A
+    if arg is not None:      # the record as the list the circuit keeps, as a tuple, or as a NumPy array (e.g. a stored data set of outcomes)
+        arg = (list, tuple, np.array, list)[(len(arg) + case['seed']) % 4](arg)
     try:
         ret = circ.backward(Sig) if arg is None else circ.backward(Sig, measure_result=arg)
     except ValueError:
